@@ -15,6 +15,7 @@ pub mod c08;
 pub mod c09;
 pub mod c10;
 pub mod c13;
+pub mod c14;
 pub mod c18;
 
 pub struct Ctx<'a> {
@@ -76,20 +77,22 @@ pub fn run_case(p: &dyn DetectProp, cx: &mut Ctx, case: &Case) {
         Outcome::Panic(_) => cx.rep.count("result:panic"),
     }
     cx.rep.nontrivial(fp(&case.bytes, &case.sett.show()));
-    // T3
-    let model = model_detect(cx.drv, &case.bytes, &case.sett);
-    cx.rep.model_rounds += model.rounds as u64;
-    cx.rep.t3_compared += 1;
-    let (a, b) = (p.slice(&real), p.slice(&model.outcome));
-    if a != b {
-        cx.rep.fail(
-            "t3",
-            &format!("{}:model-disagrees", p.id()),
-            &format!("impl: {} || model: {}", a, b),
-            &case.bytes,
-            Some(&case.sett),
-            &case.tag,
-        );
+    // T3 (cases tagged `nomodel:` are oracle-only in the quick tier: the list-based model is slow on MB inputs)
+    if !(case.tag.starts_with("nomodel:") && !cx.tier_thorough) {
+        let model = model_detect(cx.drv, &case.bytes, &case.sett);
+        cx.rep.model_rounds += model.rounds as u64;
+        cx.rep.t3_compared += 1;
+        let (a, b) = (p.slice(&real), p.slice(&model.outcome));
+        if a != b {
+            cx.rep.fail(
+                "t3",
+                &format!("{}:model-disagrees", p.id()),
+                &format!("impl: {} || model: {}", a, b),
+                &case.bytes,
+                Some(&case.sett),
+                &case.tag,
+            );
+        }
     }
     // oracle
     p.oracle(cx, case, &raw);
@@ -127,6 +130,7 @@ pub fn custom_by_id(id: &str) -> Option<CustomRun> {
     match id {
         "C08" => Some(c08::run),
         "C13" => Some(c13::run),
+        "C14" => Some(c14::run),
         "C18" => Some(c18::run),
         _ => None,
     }
